@@ -382,6 +382,9 @@ func (hp *HTTPProxy) pacProxy(r *http.Request) (*url.URL, error) {
 	if err != nil {
 		return nil, err
 	}
+	if p.Mode == pac.SOCKS || p.Mode == pac.SOCKS4 {
+		return nil, fmt.Errorf("PAC: unsupported proxy type %s", p.Mode)
+	}
 
 	proxyURL := p.URL()
 
